@@ -153,6 +153,10 @@ func runStreamProp(c *Ctx, id string) {
 	if id == "C14" {
 		runC14Keys(c)
 	}
+	if id == "C01" {
+		// the Couchbase backend: every document of a save lands under the key of its own vBucket (real cbMetadata, simulated node)
+		runC02Wire(c)
+	}
 	if id == "C04" {
 		runC04File(c)
 		runC04ReloadWindow(c)
